@@ -44,7 +44,7 @@ pub fn check<I: Inputs>(vt: &'static Vt<I>, ctx: &Ctx) -> DeclReport {
         || vt.into_iter.is_some()
         || vt.iter_ref.is_some()
         || vt.hashmap_borrow.is_some();
-    let any_pair = vt.eq.is_some() || vt.partial_cmp.is_some() || vt.cmp.is_some();
+    let any_pair = vt.eq.is_some() || vt.partial_cmp.is_some() || vt.cmp.is_some() || vt.cmp_ops.is_some();
     if !any_single && !any_pair {
         return DeclReport::irrelevant(vt.id);
     }
@@ -166,6 +166,27 @@ pub fn check<I: Inputs>(vt: &'static Vt<I>, ctx: &Ctx) -> DeclReport {
                     match no_panic(|| f(p.0.clone(), p.1.clone())) {
                         Ok(Some(g)) if g == exp => {}
                         other => return Outcome::fail(nontrivial, class, sig("PartialOrd", "differs-from-inner"), format!("{exp:?}"), format!("{other:?}")),
+                    }
+                }
+            }
+            // the operators, not only `partial_cmp`: what the inner values answer to <, <=, >, >=, !=
+            if let Some(f) = vt.cmp_ops {
+                if let Some(pc) = a.inner_partial_cmp(&b) {
+                    use std::cmp::Ordering::*;
+                    let exp = [pc == Some(Less), matches!(pc, Some(Less | Equal)), pc == Some(Greater), matches!(pc, Some(Greater | Equal)), !a.inner_eq(&b)];
+                    match no_panic(|| f(p.0.clone(), p.1.clone())) {
+                        Ok(Some(g)) if g == exp => {}
+                        other => return Outcome::fail(nontrivial, class, sig("PartialOrd", "operators-differ-from-inner"), format!("[<, <=, >, >=, !=] = {exp:?}"), format!("{other:?}")),
+                    }
+                }
+            }
+            if let Some(f) = vt.ord_minmax {
+                if let Some(Some(pc)) = a.inner_partial_cmp(&b) {
+                    // std: max returns the second argument when equal, min the first
+                    let (hi, lo) = if pc == std::cmp::Ordering::Greater { (a.clone(), b.clone()) } else { (b.clone(), a.clone()) };
+                    match no_panic(|| f(p.0.clone(), p.1.clone())) {
+                        Ok(Some((gh, gl))) if gh.inner_eq(&hi) && gl.inner_eq(&lo) => {}
+                        other => return Outcome::fail(nontrivial, class, sig("Ord", "max-min-differ-from-inner"), format!("({}, {})", hi.to_json(), lo.to_json()), format!("{:?}", other.map(|o| o.map(|(x, y)| (x.to_json(), y.to_json()))))),
                     }
                 }
             }
